@@ -117,7 +117,8 @@ Eval(M, q) ==
     [] op = "del_f" -> Sq(<<B(At(S.fdel, a)), 1>>)
     [] op = "del_hf" -> Sq(<<B(At(S.fdel, a \div 2))>>)
     [] op = "del_c" -> Sq(<<B(At(S.cdel, a)), 1>>)
-    [] op = "find_he" -> OneOf({h \in LiveHE(M) : From(M, h) = q.a /\ To(M, h) = q.b})
+    [] op = "find_he" -> IF S.vbu THEN OneOf({h \in LiveHE(M) : From(M, h) = q.a /\ To(M, h) = q.b})
+                         ELSE Sq(<<-1>>)        \* the lookup walks the outgoing halfedges: without vertex incidences it finds nothing
     [] op = "pos" -> Sq([k \in 1 .. 3 |-> ToString(At(M.pos, a)[k])])
     [] op = "p_vi" -> Sq(<<At(M.rp.vi, a)>>)
     [] op = "p_ed" -> Sq(<<At(M.rp.ed, a)>>)
@@ -151,7 +152,20 @@ RequiredOps ==
 Over(S, F(_)) == LET s == Sorted(S) IN Flat([i \in 1 .. Len(s) |-> F(s[i])])
 Ops1(ops, x) == [i \in 1 .. Len(ops) |-> Q1(ops[i], x)]
 
-Alphabet(M, mtype) ==
+(* queries that need the vertex / edge / face bottom-up incidences; on a mesh with a kind disabled the  *)
+(* alphabet keeps only the queries that are defined without it (entity iterators, definitions, downward    *)
+(* circulators, handle algebra, flags, valence of faces / cells, geometry, property reads, and the         *)
+(* lookups, which then find nothing)                                                                       *)
+NeedV == {"vv", "voh", "vih", "ve", "vhf", "vf", "vc", "vc_r", "vv_r", "voh_r", "vih_r", "ve_r", "vhf_r", "vf_r", "bnd_v", "val_v", "bit_v"}
+NeedE == {"vhf", "vf", "vc", "vc_r", "vhf_r", "vf_r", "hehf", "hef", "hec", "ehf", "ef", "ec", "hehf_r", "hef_r", "hec_r", "ehf_r", "ef_r", "ec_r",
+          "bnd_v", "bnd_e", "bnd_he", "val_e", "bit_v", "bit_he", "bit_e", "bhfhf", "bhfhf_r", "find_hf_in_cell"}
+NeedF == {"vf", "vc", "vc_r", "vf_r", "hec", "ec", "hec_r", "ec_r", "bnd_v", "bnd_e", "bnd_he", "bnd_f", "bnd_hf", "bnd_c",
+          "bit_v", "bit_he", "bit_e", "bit_hf", "bit_f", "bit_c", "inc_cell", "f_hfs", "cc", "cc_r", "adj_hf", "bhfhf", "bhfhf_r", "find_hf_in_cell"}
+Allowed(M, mtype, op) ==
+  /\ (op \in NeedV => M.st.vbu) /\ (op \in NeedE => M.st.ebu) /\ (op \in NeedF => M.st.fbu)
+  /\ (mtype # "poly" => M.st.vbu /\ M.st.ebu /\ M.st.fbu)          \* the specialised kernels need all incidences
+
+AlphabetFull(M, mtype) ==
   LET S == M.st
       hasCell(hf) == IncCell(M, hf) # -1
       big(hf) == Len(HFHes(M, hf)) >= 3
@@ -202,5 +216,7 @@ Alphabet(M, mtype) ==
                  \o Over((0 .. (NC(M) - 1)) \ LiveC(M), LAMBDA c : <<Q1("del_c", c)>>)
   IN globals \o ranges \o Over(LiveV(M), perV) \o Over(LiveE(M), perE) \o Over(LiveHE(M), perHE)
      \o Over(LiveF(M), perF) \o Over(LiveHF(M), perHF) \o Over(LiveC(M), perC) \o deleted
+
+Alphabet(M, mtype) == SelectSeq(AlphabetFull(M, mtype), LAMBDA q : Allowed(M, mtype, q.op))
 
 =============================================================================
